@@ -59,6 +59,20 @@ def generate(rng, idx, tier, variant):
             reset = False
         entry = rng.choice(['solve_t', 'solve_t', 'solve_period', 'solve']) if not dup_labels else 'solve_t'
         tn = rng.randint(lags, n - 1 - leads)
+        bad_t = None
+        if entry != 'solve' and rng.random() < 0.1:
+            # a position the model must refuse (inside the lag / lead margins, or outside the span altogether), alone or
+            # together with a second invalid argument: refused the same way with and without tracing
+            inside = list(range(0, lags)) + list(range(n - leads, n))
+            outside = [n, n + 2, -n - 1]
+            if entry == 'solve_t' and (not inside or rng.random() < 0.5):
+                bad_t = rng.choice(outside)
+            elif inside:
+                bad_t = rng.choice(inside)
+            if bad_t is not None:
+                tn = bad_t
+                if rng.random() < 0.5:
+                    opts['min_iter'] = opts['max_iter'] + 1
         # repeated solve of a period with another trace specification: generated rarely and marked (known finding F9)
         key = canon(tr)
         respecified = False
@@ -84,7 +98,7 @@ def generate(rng, idx, tier, variant):
                 solved_specs[p] = key
         op = {
             'op': entry,
-            't': tn - n if (entry == 'solve_t' and rng.random() < 0.3) else tn,
+            't': tn if (bad_t is not None and not 0 <= tn < n) else tn - n if (entry == 'solve_t' and rng.random() < 0.3) else tn,
             'form': rng.choice([0, 1]),
             'opts': opts,
             'trace': tr,
@@ -243,8 +257,13 @@ def execute(schedule, ctx):
         names = _trace_names(A, tr, spec) if tracing else None
         if entry == 'solve':
             planned = list(range(lags, n - leads)) if opts['min_iter'] <= opts['max_iter'] else []
+        elif not 0 <= tn < n:
+            planned = []  # no such period: the call must be refused, and no trace anywhere may change
+            ctx.probe('position-outside-span' + ('+min_iter>max_iter' if opts['min_iter'] > opts['max_iter'] else ''))
         else:
             planned = [tn]
+            if not lags <= tn < n - leads:
+                ctx.probe('position-inside-lag/lead-margin' + ('+min_iter>max_iter' if opts['min_iter'] > opts['max_iter'] else ''))
         # a period whose non-empty trace was recorded for other variables is being appended to: known finding F9
         respec = tracing and (not reset) and any(expected[p]['names'] is not None and expected[p]['names'] != names for p in planned)
         if not tracing:
